@@ -11,6 +11,13 @@
  *     R <string>    mps_utils_build_equivalent_rational_string on the rest of the line (verbatim)
  *     B <string>    build_equivalent_rational_string (common/inline-poly-parser.c) on the rest of the line:
  *                   prints  ERS [<string>] <exponent> <sign>   or RESULT null, then CTXERR 0|1
+ *     P <path>      setter job file: first line "<degree>", then one call per line, tab separated:
+ *                     int <i> <re> <im>            mps_monomial_poly_set_coefficient_int
+ *                     q   <i> <n/d> <n/d>          mps_monomial_poly_set_coefficient_q (mpq_set_str + canonicalize here)
+ *                     s   <i> <re|NULL> <im|NULL>  mps_monomial_poly_set_coefficient_s
+ *                     d   <i> <hexfloat> <hexfloat>          mps_monomial_poly_set_coefficient_d
+ *                     f   <i> <prec> <hexfloat> <hexfloat>   mps_monomial_poly_set_coefficient_f (mpc of prec bits)
+ *                   then the polynomial is printed as for a parsed one, the exact store (Q lines) always
  * stdout per job:
  *     BEGIN <job line>
  *     RESULT ok | RESULT error <message on one line>
@@ -97,6 +104,8 @@ static const char *struct_name (mps_structure s)
     }
 }
 
+static int force_q = 0;
+
 static void dump_poly (mps_context *ctx, mps_polynomial *p)
 {
   int i, n = p->degree;
@@ -122,6 +131,8 @@ static void dump_poly (mps_context *ctx, mps_polynomial *p)
       mpq_init (gr); mpq_init (gi);
       for (i = 0; i <= n; i++)
         {
+          if (force_q && !exact)
+            put_q ("c", i, mp->initial_mqp_r[i], mp->initial_mqp_i[i]);
           if (exact)
             {
               put_q ("c", i, mp->initial_mqp_r[i], mp->initial_mqp_i[i]);
@@ -276,6 +287,53 @@ int main (int argc, char **argv)
             }
           free (l2); fclose (f);
           finish_parse (ctx, MPS_POLYNOMIAL (mp));
+          mps_polynomial_free (ctx, MPS_POLYNOMIAL (mp));
+          mps_context_free (ctx);
+        }
+      else if (mode == 'P')
+        {
+          mps_context *ctx = mps_context_new ();
+          FILE *f = fopen (arg, "r");
+          int n = 0;
+          char *l2 = NULL; size_t c2 = 0;
+          mps_monomial_poly *mp;
+          if (!f || fscanf (f, "%d\n", &n) != 1 || n < 0) { printf ("RESULT error bad setter job\nEND\n"); continue; }
+          mp = mps_monomial_poly_new (ctx, n);
+          fflush (stdout);
+          while (getline (&l2, &c2, f) > 0)
+            {
+              char *w[6]; int k = 0; char *q = l2, *e;
+              long i;
+              e = strchr (l2, '\n'); if (e) *e = 0;
+              while (k < 6 && q) { w[k++] = q; q = strchr (q, '\t'); if (q) *q++ = 0; }
+              if (k < 4) continue;
+              i = atol (w[1]);
+              if (i < 0 || i > n) continue;             /* the setters do not check the index */
+              if (!strcmp (w[0], "int"))
+                mps_monomial_poly_set_coefficient_int (ctx, mp, i, atoll (w[2]), atoll (w[3]));
+              else if (!strcmp (w[0], "q"))
+                {
+                  mpq_t a, b; mpq_init (a); mpq_init (b);
+                  mpq_set_str (a, w[2], 10); mpq_canonicalize (a);
+                  mpq_set_str (b, w[3], 10); mpq_canonicalize (b);
+                  mps_monomial_poly_set_coefficient_q (ctx, mp, i, a, b);
+                  mpq_clear (a); mpq_clear (b);
+                }
+              else if (!strcmp (w[0], "s"))
+                mps_monomial_poly_set_coefficient_s (ctx, mp, (int)i, strcmp (w[2], "NULL") ? w[2] : NULL, strcmp (w[3], "NULL") ? w[3] : NULL);
+              else if (!strcmp (w[0], "d"))
+                mps_monomial_poly_set_coefficient_d (ctx, mp, i, strtod (w[2], NULL), strtod (w[3], NULL));
+              else if (!strcmp (w[0], "f") && k >= 5)
+                {
+                  mpc_t c; mpc_init2 (c, atol (w[2]));
+                  mpc_set_d (c, strtod (w[3], NULL), strtod (w[4], NULL));
+                  mps_monomial_poly_set_coefficient_f (ctx, mp, i, c);
+                  mpc_clear (c);
+                }
+            }
+          free (l2); fclose (f);
+          printf ("RESULT ok\n");
+          force_q = 1; dump_poly (ctx, MPS_POLYNOMIAL (mp)); force_q = 0;
           mps_polynomial_free (ctx, MPS_POLYNOMIAL (mp));
           mps_context_free (ctx);
         }
